@@ -9,7 +9,6 @@ import (
 	"encoding/json"
 	"fmt"
 	"math/rand"
-	"os"
 	"regexp"
 	"sort"
 	"strings"
@@ -17,8 +16,6 @@ import (
 	cs "github.com/lianxiangcloud/linkchain/consensus"
 	"github.com/lianxiangcloud/linkchain/libs/p2p"
 	"github.com/lianxiangcloud/linkchain/libs/ser"
-
-	"verifh/cluster"
 )
 
 // hit is one observation that contradicts the property (or a latent one).
@@ -54,20 +51,23 @@ type jobResult struct {
 	AsIsPanic   int            `json:"asisPanic"`    // deliveries for which the as-is model predicts a panic
 	AsIsAgree   int            `json:"asisAgree"`    // ... and the real state machine panicked
 	LiveTo      uint64         `json:"liveTo"`       // height committed by every node after the barrage
+	WALEntries  int            `json:"walEntries"`   // messages the target encoded for its write-ahead log
+	WALMaxBytes int            `json:"walMaxBytes"`
+	WALTooBig   int            `json:"walTooBig"` // entries the WAL decoder would refuse (> 1 MiB)
 	Sample      interface{}    `json:"sample,omitempty"`
 	Infra       string         `json:"infra,omitempty"`
 }
 
 type runner struct {
-	class   string
-	b       *built
-	in      *inst
-	rng     *rand.Rand
-	res     *jobResult
-	w       *bufio.Writer
+	class    string
+	b        *built
+	in       *inst
+	rng      *rand.Rand
+	res      *jobResult
+	w        *bufio.Writer
 	variants int
-	seenKey map[string]bool
-	probe   []int // rounds whose vote sets' existence is part of the snapshot (String() of a HeightVoteSet hides negative catch-up rounds)
+	seenKey  map[string]bool
+	probe    []int // rounds whose vote sets' existence is part of the snapshot (String() of a HeightVoteSet hides negative catch-up rounds)
 }
 
 type snap struct {
@@ -92,6 +92,14 @@ func (rn *runner) at(s string) {
 }
 
 func (rn *runner) rebuild() error {
+	if rn.b != nil && rn.b.wal != nil {
+		rn.res.WALEntries += rn.b.wal.entries
+		rn.res.WALTooBig += rn.b.wal.tooBig
+		if rn.b.wal.maxBytes > rn.res.WALMaxBytes {
+			rn.res.WALMaxBytes = rn.b.wal.maxBytes
+		}
+		rn.b.wal = nil
+	}
 	b, err := buildClass(rn.class, false)
 	if err != nil {
 		return err
@@ -150,6 +158,7 @@ func (rn *runner) collectPend() {
 // ---- one delivery -------------------------------------------------------------------
 
 type outcome struct {
+	diff        string // first difference of the snapshots
 	reactorFail interface{}
 	stopped     bool
 	popped      int
@@ -179,6 +188,7 @@ func (rn *runner) wire(cm concrete) outcome {
 	o.stopped = b.sw.nStopped() > stops
 	post := rn.snap()
 	o.changed = pre != post
+	o.diff = firstDiff(pre, post)
 	o.viewChanged = pre.view != post.view
 	rn.res.Deliveries++
 	rn.res.Forwarded += o.popped
@@ -198,9 +208,40 @@ func (rn *runner) direct(m cs.ConsensusMessage) outcome {
 	rn.collectPend()
 	post := rn.snap()
 	o.changed = pre != post
+	o.diff = firstDiff(pre, post)
 	o.viewChanged = pre.view != post.view
 	rn.res.Deliveries++
 	return o
+}
+
+// firstDiff names the first line in which two snapshots differ.
+func firstDiff(a, b snap) string {
+	if a == b {
+		return ""
+	}
+	if a.deep == b.deep {
+		return "projection (cluster.ViewOf): " + a.view + " -> " + b.view
+	}
+	la, lb := strings.Split(a.deep, "\n"), strings.Split(b.deep, "\n")
+	for i := 0; i < len(la) || i < len(lb); i++ {
+		x, y := "(none)", "(none)"
+		if i < len(la) {
+			x = la[i]
+		}
+		if i < len(lb) {
+			y = lb[i]
+		}
+		if x != y {
+			if len(x) > 300 {
+				x = x[:300]
+			}
+			if len(y) > 300 {
+				y = y[:300]
+			}
+			return fmt.Sprintf("%q -> %q", x, y)
+		}
+	}
+	return "?"
 }
 
 var reNum = regexp.MustCompile(`-?\d+`)
@@ -271,6 +312,9 @@ var changing = map[string]bool{"proposal": true, "recover": true, "part": true, 
 // state changed (the caller then rebuilds the class).
 func (rn *runner) replayEdge(e *edge, k int) (changedState bool, err error) {
 	m := e.Act.M
+	if m.T == "byzblock" {
+		return rn.replayByz(e)
+	}
 	signed := m.Sig == "who" || m.Sig == "proposer" || m.Sig == "other"
 	ndev := devCount(e)
 	paths := []string{"wire/none", "wire/match", "direct"}
@@ -306,7 +350,7 @@ func (rn *runner) replayEdge(e *edge, k int) (changedState bool, err error) {
 		if !onWire {
 			asis = e.Act.AsIsDirect
 		}
-		if asis == "panic" {
+		if asis == "panic" && (!onWire || o.popped > 0) {
 			rn.res.AsIsPanic++
 			if o.smFail != nil {
 				rn.res.AsIsAgree++
@@ -342,7 +386,7 @@ func (rn *runner) replayEdge(e *edge, k int) (changedState bool, err error) {
 			if !e.Act.May && checkStutter {
 				rec.Kind = "state-change"
 				rec.Key = "state-change/" + m.T + "/" + devFields(e)
-				rec.Detail = "the RoundState changed on a message the specification classifies as unable to affect the node"
+				rec.Detail = "the RoundState changed on a message the specification classifies as unable to affect the node: " + o.diff
 				rn.addHit(rec)
 			}
 			return true, nil
@@ -511,6 +555,3 @@ func (rn *runner) liveness() (uint64, error) {
 	}
 	return top, fmt.Errorf("the cluster did not commit height %d: %s", goal, strings.Join(st, " "))
 }
-
-var _ = cluster.MaxRound
-var _ = os.Stdout
